@@ -1443,6 +1443,144 @@ def session_correspondence(ctx, hists, results, distinct, refs, refev, pool_cls)
                           signature={'kind': 'session-correspondence', 'what': why[0]})
 
 
+HEAP_PROBES = 12                  # operations re-run in the same process after a violation of the write discipline
+HEAP_SEARCHES_PER_SIGNATURE = 3   # histories searched for a failing input per distinct violation
+HEAP_SEARCHES = 24                # per run
+
+
+def heap_probes(ops, vi, group, facts):
+    """the operations of ops[:vi+1] that are run once more, in the same process, after operation vi wrote to an object
+    reachable from a cache: every distinct decode / encode / view once; those whose message uses the table group the
+    written object belongs to first, decodes / encodes (which go through the cached objects anew) before views of kept
+    objects, the most recent first"""
+    seen, same, other = set(), [], []
+    for op in reversed(ops[:vi + 1]):
+        if op['k'] not in ('proc', 'view'):
+            continue
+        k = ref_key(op)
+        if k in seen:
+            continue
+        seen.add(k)
+        f = facts.get((op['src'], op['m']), {})
+        (same if group is not None and f.get('tkey') == group else other).append(op)
+    pick = sorted(same, key=lambda o: o['k'] != 'proc') + sorted(other, key=lambda o: o['k'] != 'proc')
+    return [dict(o) for o in pick[:HEAP_PROBES]]
+
+
+def heap_correspondence(ctx, mp, pool_path, hists, results, distinct, refs, refev, refheap):
+    """The hypothesis of the heap model (lean/BufrModel/Msg/Heap.lean; `Sep` of theorem C13_heap_refines_value_model in
+    Props/C13Heap.lean: no write reaches an object reachable from a cache outside the load / compilation of its key, the
+    per-subset lists of a coder state are shared exactly as `CoderState.__init__` is modelled) was checked on every
+    operation of every history by harness/c13heap.py.  Counters are aggregated; a history in which it does NOT hold is a
+    correspondence failure: a failing input is searched for with the fresh-interpreter oracle - (i) an output of the
+    history itself that differs from its reference, (ii) the history cut after the violating operation and extended by
+    probe operations (heap_probes) run in the same process - and reported; (iii) no output differs: reported as
+    no-failing-input-found."""
+    from harness import c13heap
+    facts = build_facts(distinct, refs, refev)
+    cands = {}
+
+    def add(limit, ops, res):
+        h = res.get('heap')
+        if not h or not h['viol']:
+            return
+        v = h['viol'][0]
+        op = ops[v['op']] if 0 <= v['op'] < len(ops) else {'k': '?'}
+        sig = {'kind': 'heap-write-reaches-cached-object', 'what': v['kind'], 'op': kind_str(op), 'where': v['sig']}
+        cands.setdefault(core.chash(sig), []).append((limit, ops, res, v, sig))
+    th = tr = 0.0
+    nh = nr = 0
+    for (limit, ops), res in zip(hists, results):
+        h = res.get('heap')
+        if not h:
+            continue
+        nh += 1
+        th += h['time']
+        ctx.count('heap:histories audited')
+        for k, n in h['counts'].items():
+            ctx.count('heap:' + k, n)
+        for recs in h['pat']:
+            for r in recs:
+                ctx.count('heap:identity pattern:' + c13heap.pattern_str(r))
+        if h['viol']:
+            ctx.count('heap:histories in which the write discipline / identity pattern of the heap model does not hold')
+        add(limit, ops, res)
+    for k, h in refheap.items():
+        if not h:
+            continue
+        nr += 1
+        tr += h['time']
+        ctx.count('heap:reference operations audited (fresh interpreter)')
+        ctx.count('heap:reference operations:snapshots taken', h['counts'].get('snapshots taken', 0))
+        if h['viol']:
+            ctx.count('heap:reference operations in which the write discipline / identity pattern of the heap model does not hold')
+        add(None, [distinct[k]], {'out': [refs[k]], 'heap': h})
+    ctx.notes.append('heap audit (harness/c13heap.py): %.1fs of CPU summed over %d history processes, %.1fs over %d reference processes'
+                     % (th, nh, tr, nr))
+    if not cands:
+        return
+
+    def where(ops, v):
+        op = ops[v['op']] if 0 <= v['op'] < len(ops) else {'k': '?'}
+        return 'operation %d (%s on %s)' % (v['op'], kind_str(op), op.get('m') or op.get('f') or op.get('v') or '-')
+    head = ('heap model hypothesis Sep (no write reaches an object reachable from the table-group cache or a compiled-template cache '
+            'outside the load / compilation of its key; coder-state lists shared as modelled; theorem C13_heap_refines_value_model) '
+            'does not hold of the implementation: ')
+    searches = []
+    done = set()
+    for key, lst in sorted(cands.items()):
+        direct = None
+        for limit, ops, res, v, sig in lst:
+            j = next((j for j in range(max(v['op'], 0), len(ops)) if ref_key(ops[j]) in refs and res['out'][j] != refs[ref_key(ops[j])]), None)
+            if j is not None:
+                direct = (limit, ops, res, v, sig, j)
+                break
+        if direct:
+            limit, ops, res, v, sig, j = direct
+            ctx.violation(head + '%s [%s]: %s; operation %d (%s on %s) of the same history gives %s, first in a fresh interpreter %s (%d histories show this violation)'
+                          % (where(ops, v), v['kind'], v['text'], j, kind_str(ops[j]), ops[j].get('m') or ops[j].get('f') or ops[j].get('v'),
+                             _short(res['out'][j]), _short(refs[ref_key(ops[j])]), len(lst)),
+                          {'mode': 'history', 'limit': limit, 'ops': ops[:j + 1], 'heap_violation': v, 'got': res['out'][j], 'fresh': refs[ref_key(ops[j])]},
+                          signature=sig)
+            done.add(key)
+            continue
+        for limit, ops, res, v, sig in lst[:HEAP_SEARCHES_PER_SIGNATURE]:
+            if len(searches) < HEAP_SEARCHES:
+                vi = min(max(v['op'], 0), len(ops) - 1)
+                searches.append((key, limit, ops[:vi + 1], heap_probes(ops, vi, v.get('group'), facts), v, sig, len(lst)))
+    sres = mp.map(run_history, [{'pool': pool_path, 'limit': limit, 'ops': prefix + probes} for _, limit, prefix, probes, _, _, _ in searches], chunksize=1) if searches else []
+    ctx.count('heap:failing-input searches (history cut after the violating operation + probe operations)', len(searches))
+    ctx.count('heap:probe operations run', sum(len(x[3]) for x in searches))
+    for pas in (0, 1):
+        for (key, limit, prefix, probes, v, sig, nlst), r in zip(searches, sres):
+            if key in done:
+                continue
+            ext = prefix + probes
+            j = next((j for j in range(len(prefix), len(ext)) if r['out'][j] != refs[ref_key(ext[j])]), None)
+            if pas == 0 and j is not None:
+                done.add(key)
+                ctx.violation(head + '%s [%s]: %s; running %s on %s once more afterwards in the same process gives %s, first in a fresh interpreter %s (%d histories show this violation)'
+                              % (where(prefix, v), v['kind'], v['text'], kind_str(ext[j]), ext[j].get('m') or ext[j].get('v'),
+                                 _short(r['out'][j]), _short(refs[ref_key(ext[j])]), nlst),
+                              {'mode': 'history', 'limit': limit, 'ops': ext[:j + 1], 'heap_violation': v, 'got': r['out'][j], 'fresh': refs[ref_key(ext[j])]},
+                              signature=sig)
+            elif pas == 1:
+                done.add(key)
+                nprobe = sum(len(x[3]) for x in searches if x[0] == key)
+                ctx.violation(head + '%s [%s]: %s. No output of the %d histories that show this violation or of %d probe operations (the decodes / encodes / views '
+                              'of the history run once more after the violating operation, same process) differs from a fresh interpreter'
+                              % (where(prefix, v), v['kind'], v['text'], nlst, nprobe),
+                              {'mode': 'history', 'limit': limit, 'ops': prefix, 'heap_violation': v, 'probes': probes},
+                              signature=sig, no_failing_input=True)
+    for key, lst in sorted(cands.items()):
+        if key not in done:      # more distinct violations than the search budget of this run
+            limit, ops, res, v, sig = lst[0]
+            ctx.violation(head + '%s [%s]: %s. No output of the %d histories that show this violation differs from a fresh interpreter (no probe '
+                          'operations run: the budget of %d searches per run was spent on other violations)' % (where(ops, v), v['kind'], v['text'], len(lst), HEAP_SEARCHES),
+                          {'mode': 'history', 'limit': limit, 'ops': ops[:max(v['op'], 0) + 1], 'heap_violation': v},
+                          signature=sig, no_failing_input=True)
+
+
 def evaluate_histories(ctx, mp, pool_path, pool, hists, kinds=None):
     """hists: list of (limit, ops).  Runs references (fresh interpreter per distinct op), the histories, compares."""
     pool_cls = {m['name']: m['cls'] for m in pool['msgs']}
@@ -1458,6 +1596,7 @@ def evaluate_histories(ctx, mp, pool_path, pool, hists, kinds=None):
     fres = mp.map(run_fresh, [{'pool': pool_path, 'op': distinct[k]} for k in keys], chunksize=1)
     refs = {k: r[0] for k, r in zip(keys, fres)}
     refev = {k: r[1] for k, r in zip(keys, fres)}
+    refheap = {k: r[2] for k, r in zip(keys, fres)}
     # cross-check: a sample of the operations in interpreters started from scratch ('spawn')
     srng = ctx.rng('spawn-sample')
     sample = srng.sample(keys, min(len(keys), 96 if ctx.tier == 'quick' else 960))
@@ -1483,6 +1622,7 @@ def evaluate_histories(ctx, mp, pool_path, pool, hists, kinds=None):
     results = mp.map(run_history, [{'pool': pool_path, 'limit': limit, 'ops': ops} for limit, ops in hists], chunksize=1)
     ctx.notes.append('timing: %d reference operations in fresh interpreters %.1fs, %d histories %.1fs' % (len(keys), t1 - t0, len(hists), time.time() - t1))
     session_correspondence(ctx, hists, results, distinct, refs, refev, pool_cls)
+    heap_correspondence(ctx, mp, pool_path, hists, results, distinct, refs, refev, refheap)
     logged = []
     for hi, ((limit, ops), res) in enumerate(zip(hists, results)):
         ctx.count('oracle:histories:kind:' + kinds[hi])
